@@ -20,10 +20,12 @@ type Body struct {
 	FailAt      int64 // -1: never
 	Err         error
 	YieldEvery  int
+	MaxYields   int  // > 0: stop yielding after that many yields (bounds the steps one body can cost)
 	EOFWithData bool // return io.EOF together with the last bytes
 
-	off   int64
-	reads int
+	off    int64
+	reads  int
+	yields int
 	// Delivered is the number of bytes handed out so far.
 	Delivered int64
 }
@@ -32,8 +34,9 @@ func NewBody(data []byte) *Body { return &Body{Data: data, FailAt: -1} }
 
 func (b *Body) Read(p []byte) (int, error) {
 	b.reads++
-	if b.YieldEvery > 0 && b.reads%b.YieldEvery == 0 {
+	if b.YieldEvery > 0 && b.reads%b.YieldEvery == 0 && (b.MaxYields <= 0 || b.yields < b.MaxYields) {
 		if s := sim.Active(); s != nil {
+			b.yields++
 			s.Yield("body.read")
 		}
 	}
